@@ -7,7 +7,10 @@ LEVEL = "proof"
 THEOREMS = ['C11_compose', 'C11_refines', 'C11_wf', 'C11_no_error', 'C11_families_agree', 'C11_impossible_cell_vacuous', 'C11_transpose', 'C11_deduce_order', 'C11_example_cell_vacuous']
 RULE = ("merge on pairs of conditional tables x strictly positive base rates, |X1|,|X2| in 2..3, |Y| in 2..3, dyadic grids, including "
         "tables that make a joint value impossible under every y; each case is also run with the parents exchanged and the two "
-        "outputs compared after transposition (cross-case check); families A/M (validated product) and D/N; f32+f64")
+        "outputs compared after transposition (cross-case check); families A/M (validated product) and D/N; f32+f64. Structured "
+        "stream (|Y|=3): for some y one parent is irrelevant (equal u and equal b(y) in every row: constant likelihood column, its "
+        "inverted opinion for y is vacuous) while every conditional of the other parent is dogmatic with an impossible outcome and "
+        "y is possible and non-constant under it; both assignments of the roles to X1 / X2 (the exchanged pair), all families")
 EXHAUSTIVE = {}
 nontrivial = default_nontrivial
 CROSS_GROUPS = [0]
@@ -28,8 +31,43 @@ def transpose_cells(vals, n1, n2, m):
     return out
 
 
-def one(rng, fmt, n1, n2, m, den, fam, st, impossible=False):
-    if impossible:
+def irrelevant_parent_tables(rng, n1, n2, den):
+    """|Y| = 3.  c1: every row has the same uncertainty and the same mass on y0 (P(y0|x1) constant: X1 is irrelevant for y0, the
+    inverted opinion for y0 is vacuous); c2: every row dogmatic with at least one impossible outcome, y0 possible and non-constant."""
+    m = 3
+    y0 = rng.randrange(m)
+    others = [y for y in range(m) if y != y0]
+    for _ in range(100):
+        u = rng.choice([0, 0, rng.randint(1, den // 2)])
+        c = rng.randint(1, den - u - 1)
+        rest = den - u - c
+        rows1 = []
+        for _x in range(n1):
+            k = rng.randint(0, rest)
+            row = [0] * m
+            row[y0], row[others[0]], row[others[1]] = c, k, rest - k
+            rows1.append(row + [u])
+        if len({tuple(r) for r in rows1}) > 1:
+            break
+    for _ in range(100):
+        rows2 = []
+        for _x in range(n2):
+            cx = rng.randint(1, den)
+            z = rng.choice(others)
+            row = [0] * m
+            row[y0] = cx
+            row[[y for y in others if y != z][0]] = den - cx
+            rows2.append(row + [0])
+        if len({r[y0] for r in rows2}) > 1:
+            break
+    fr = lambda rows: [Fr(v, den) for r in rows for v in r]  # noqa: E731
+    return fr(rows1), fr(rows2)
+
+
+def one(rng, fmt, n1, n2, m, den, fam, st, impossible=False, tables=None):
+    if tables:
+        c1, c2 = tables
+    elif impossible:
         # X1 value 0 never occurs with y=0.. : make cond tables dogmatic with disjoint supports so some joint cell is impossible
         c1 = G.rand_cond(rng, n1, m, den, ["dog"] * n1)
         c2 = G.rand_cond(rng, n2, m, den, [rng.choice(["dog", "int"]) for _ in range(n2)])
@@ -65,6 +103,12 @@ def cases(rng, tier):
             den = rng.choice([4, 8, 16])
             fam = rng.choice(["A", "M", "D", "N"])
             out += one(rng, fmt, n1, n2, m, den, fam, rng.choice(["o", "r"]), impossible=rng.random() < 0.3)
+        for _ in range(N // 3):
+            # one parent irrelevant for some y, the other dogmatic with impossible outcomes (both role assignments: the pair)
+            n1, n2 = rng.choice([2, 3]), rng.choice([2, 3])
+            den = rng.choice([4, 8, 16])
+            fam = rng.choice(["A", "M", "D", "N", "D", "N"])
+            out += one(rng, fmt, n1, n2, 3, den, fam, rng.choice(["o", "r"]), tables=irrelevant_parent_tables(rng, n1, n2, den))
     return out
 
 
